@@ -18,7 +18,7 @@ def fsmOf : String → Option Fsm
   | "Stopping" => some .stopping | "Stopped" => some .stopped | "Error" => some .error | _ => none
 
 def internal (s : St) : List Act :=
-  [.runEnter, .runProbeOk, .runProbeFail true, .runProbeFail false, .runToRunning, .runSelCtx, .runSelStop, .runSelErr,
+  [.runEnter, .runBootFail, .runProbeOk, .runProbeFail true, .runProbeFail false, .runToRunning, .runSelCtx, .runSelStop, .runSelErr,
    .runToStopping, .runStopServer true, .runStopServer false, .runFinish,
    .rlEnter, .rlAfterCb, .rlStopOld true, .rlStopOld false, .rlBootBegin true, .rlBootBegin false, .rlProbeOk, .rlProbeFail true, .rlProbeFail false]
   ++ (List.range s.insts.length).flatMap fun i => [.instBind i, .instBindFail i]
